@@ -26,6 +26,8 @@ from .sym import (PathAbort, PyExc, SBool, SFloat, SInt, SStr, SV, Unsupported,
 
 MAIN_TIMEOUT_MS = int(os.environ.get('PYVC_TIMEOUT_MS', '10000'))
 MAIN_RLIMIT = int(os.environ.get('PYVC_RLIMIT', '60000000'))
+PORTFOLIO_BUDGET_S = float(os.environ.get('PYVC_PORTFOLIO_S', '90'))
+PORTFOLIO_SPENT_S = 0.0
 CVC5 = '/usr/bin/cvc5'
 OLDZ3 = '/usr/bin/z3'
 
@@ -110,13 +112,19 @@ def check_valid(pc, goal, timeout_ms=None, portfolio=True):
                 model = MergedModel(model, s2.model())
         return Verdict('sat', 'z3-5.1', ms, model=model)
     reason = s.reason_unknown()
+    global PORTFOLIO_SPENT_S
+    if PORTFOLIO_SPENT_S > PORTFOLIO_BUDGET_S:
+        portfolio = False
+        reason += ' (portfolio budget of this worker exhausted)'
     if not portfolio:
         return Verdict('unknown', 'z3-5.1', ms, reason=reason)
     text = '(set-logic ALL)\n' + s.to_smt2()
     res, ms2 = run_cli([CVC5, '--strings-exp', f'--tlimit={timeout_ms * 3}'], text, timeout_ms * 3 / 1000 + 5)
+    PORTFOLIO_SPENT_S += ms2 / 1000
     if res == 'unsat':
         return Verdict('unsat', 'cvc5-1.0', ms + ms2)
     res3, ms3 = run_cli([OLDZ3, f'-T:{max(1, timeout_ms * 2 // 1000)}'], s.to_smt2(), timeout_ms * 2 / 1000 + 5)
+    PORTFOLIO_SPENT_S += ms3 / 1000
     if res3 == 'unsat':
         return Verdict('unsat', 'z3-4.8', ms + ms2 + ms3)
     if res == 'sat' or res3 == 'sat':
